@@ -18,4 +18,8 @@ theorem widths_as_modelled : seqWidths = [("list_obj_size", 8), ("list_num", 8),
     arguments (and the container) only, also when several threads are inside at once -/
 theorem no_hidden_static_state : seqStatics = [] := by decide
 
+/-- the assert() calls of this family, as reviewed: comparisons of fields only - nothing is lost when the
+    release build (-DNDEBUG) drops them; a new or changed assert() has to be reviewed here -/
+theorem asserts_side_effect_free : seqAsserts = [] := by decide
+
 end Qlibc.Shapes.Seq
